@@ -18,10 +18,11 @@ AnyVal   == Vals \cup {"v9"}                      \* "no value constraint"
 \* research & scholarship releases these of ours (entity_category/refeds.py)
 Entitled(hasCat) == IF hasCat THEN {"givenName", "mail"} ELSE {}
 
-Policies == {"none", "names12", "a1v1only", "perSP_a1", "perSP_fallback_a2", "ec", "ec_names1"}
+\* a1v1twice: the same value set as a1v1only, configured as two overlapping patterns that both match v1
+Policies == {"none", "names12", "a1v1only", "a1v1twice", "perSP_a1", "perSP_fallback_a2", "ec", "ec_names1"}
 \* attribute restrictions that apply to this SP: "none" or [attr -> allowed values] on the listed attributes
 RestrOf(p) == CASE p = "names12" -> [a \in {"givenName", "mail"} |-> AnyVal]
-                [] p = "a1v1only" -> [a \in {"givenName", "mail"} |-> IF a = "givenName" THEN {"v1"} ELSE AnyVal]
+                [] p \in {"a1v1only", "a1v1twice"} -> [a \in {"givenName", "mail"} |-> IF a = "givenName" THEN {"v1"} ELSE AnyVal]
                 [] p = "perSP_a1" -> [a \in {"givenName"} |-> AnyVal]
                 [] p = "perSP_fallback_a2" -> [a \in {"mail"} |-> AnyVal]
                 [] p = "ec_names1" -> [a \in {"givenName"} |-> AnyVal]
